@@ -24,6 +24,7 @@ import (
 	"strconv"
 	"sync"
 	"time"
+	"unicode/utf8"
 
 	"github.com/cockroachdb/errors"
 	"github.com/samber/lo"
@@ -630,6 +631,9 @@ func (e *MetaCDC) validCreateRequest(req *request.CreateRequest) error {
 			return servererror.NewClientError("the kafka topic is empty")
 		}
 	}
+	if !utf8.ValidString(req.TaskID) {
+		return servererror.NewClientError("the task id is not valid utf-8")
+	}
 	cacheParam := req.BufferConfig
 	if cacheParam.Period < 0 {
 		return servererror.NewClientError("the cache period is less zero")
@@ -652,6 +656,9 @@ func (e *MetaCDC) validCreateRequest(req *request.CreateRequest) error {
 		err = e.checkCollectionInfos(req.CollectionInfos)
 	} else if len(req.DBCollections) == 1 {
 		for db, infos := range req.DBCollections {
+			if !utf8.ValidString(db) {
+				return servererror.NewClientError("the db name is not valid utf-8")
+			}
 			if len(db) > e.config.MaxNameLength {
 				return servererror.NewClientError(fmt.Sprintf("the db name length exceeds %d characters, %s", e.config.MaxNameLength, db))
 			}
@@ -713,6 +720,9 @@ func (e *MetaCDC) checkCollectionInfos(infos []model.CollectionInfo) error {
 	for _, info := range infos {
 		if info.Name == "" {
 			emptyName = true
+		}
+		if !utf8.ValidString(info.Name) {
+			return servererror.NewClientError("the collection name is not valid utf-8")
 		}
 		if info.Name == cdcreader.AllCollection && len(infos) > 1 {
 			return servererror.NewClientError(fmt.Sprintf("make sure the only one collection if you want to use the '*' collection param, current param: %v",
